@@ -10,4 +10,6 @@ import sys
 from vp.common import repo_guard
 print("python", sys.version.split()[0], "observing", repo_guard())
 import pyparsing, fixedint
+from vp.refmodels import selfcheck
+selfcheck.main()
 PY
